@@ -172,6 +172,21 @@ CHECKS["C07"] = {
     "note": "Trusted: FKinSpace/JacobianSpace/MatrixLog6/Adjoint (C01/C02); documented parameter roles.",
 }
 
+CHECKS["C08"] = {
+    "engine": "sa",
+    "technique": "translation validation (normal forms) of the dynamics functions + structural zero-pattern / congruence-sum / call-contract rules",
+    "design_ref": "DESIGN.md section 4 C08",
+    "text": ("Decides the structural part of dynamics consistency for all chains and states: the Newton-Euler recursion, the nine "
+             "functions derived from it and the primitives they call have the normal form of modern_robotics 1.1.1; mass matrix, "
+             "velocity-product, gravity and tip-force terms select exactly the documented zero patterns of the one recursion (so "
+             "tau = M qdd + c + g + J^T F holds by linearity of that recursion); ForwardDynamics is inv(M)(tau - c - g - J^T F); "
+             "Arm.massMatrix is literally a sum of congruences J_i^T G_i J_i (symmetric PSD by construction); the arm-level "
+             "wrappers call the kernels with arguments in role order, 1-D tip loads and matching return arity. Symmetry / "
+             "definiteness as numbers, FD o ID = id, energy conservation and agreement of Arm.inverseDynamics/inverseDynamicsC "
+             "with the recursion are numerical identities and are NOT decided."),
+    "note": "Trusted: modern_robotics 1.1.1 recursion as the physics reference; rewrite set N1..N16.",
+}
+
 _PENDING = "rule module not yet built in this round (see DESIGN.md section 4 for the planned static rules)"
 for _i in range(1, 21):
     _p = "C%02d" % _i
